@@ -18,6 +18,7 @@
 package pilosa
 
 import (
+	"context"
 	"os"
 	"unsafe"
 
@@ -35,6 +36,7 @@ type VerifC03Frag struct{ f *fragment }
 func VerifC03OpenFragment(path string, shard uint64) (*VerifC03Frag, error) {
 	f := newFragment(path, "i", "f", viewStandard, shard, 0)
 	f.CacheType = CacheTypeNone
+	f.MaxOpN = 1 << 40 // snapshots only where the history asks for one
 	f.snapshotQueue = newSnapshotQueue(1, 1, logger.NewStandardLogger(os.Stderr))
 	if err := f.Open(); err != nil {
 		return nil, err
@@ -49,6 +51,11 @@ func (v *VerifC03Frag) SetRow(r *Row, row uint64) (bool, error) {
 	return v.f.setRow(r, row)
 }
 func (v *VerifC03Frag) ClearRow(row uint64) (bool, error) { return v.f.clearRow(row) }
+
+// ImportRoaring sets or clears the bits of a serialised roaring bitmap (fragment positions).
+func (v *VerifC03Frag) ImportRoaring(data []byte, clear bool) error {
+	return v.f.importRoaring(context.Background(), data, clear)
+}
 func (v *VerifC03Frag) Snapshot() error                    { return v.f.Snapshot() }
 func (v *VerifC03Frag) Close() error                       { return v.f.Close() }
 func (v *VerifC03Frag) Reopen() error                      { return v.f.Open() }
